@@ -78,6 +78,7 @@ class Gen:
         self.fresh = 0
         self.stats = {}
         self.unit_mode = 'logical'
+        self.prev_open = False
 
     # ---- helpers
     def stat(self, k):
@@ -167,6 +168,9 @@ class Gen:
         if fns and rng.random() < 0.6:
             f = rng.choice(fns)
             n = len(self.routines[f][0])
+            if f in getattr(self, 'recursive', set()):
+                k = rng.randint(0, 5)
+                return ('call', f, [(str(k), '(RLit (LInt %d))' % k)])
         else:
             f = rng.choice(['round', 'floor', 'ceil', 'trunc', 'cycle', 'sqrt'])
             n = 1
@@ -353,6 +357,8 @@ class Gen:
                 kinds.append(('break', 2))
             if self.locals is not None:
                 kinds.append(('return', 3))
+        over = self.opts.get('weights', {})
+        kinds = [(k, over.get(k, w)) for k, w in kinds]
         if self.in_matrix:
             kinds = [(k, w) for k, w in kinds if k in ('reg', 'assign', 'if', 'repeat', 'units')] + [('stage', 30)]
         kinds = [(k, w) for k, w in kinds if w > 0 and k in allow]
@@ -608,6 +614,9 @@ class Gen:
         f = rng.choice(cands)
         ps, _ = self.routines[f]
         args = [self.gen_rval_num(1, neg_ok=True) for _ in ps]
+        if f in getattr(self, 'recursive', set()):
+            k = rng.randint(0, 5)
+            args = [(str(k), '(RLit (LInt %d))' % k)]
         bracketed = rng.random() < 0.3 and not self.prev_open
         self.prev_open = False
         txt = ' '.join([f] + [a[0] for a in args])
@@ -754,6 +763,28 @@ class Gen:
         body_c = '(SBlock %s)' % coq_list([c for _, c in stmts])
         return (head + ' ' + body_t, '(SDefineRoutine %s %s %s)' % (coq_str(f), coq_list([coq_str(p) for p in params]), body_c))
 
+    def gen_recursive(self):
+        """a routine that calls itself with a decreasing argument (depth bounded by the literal arguments used)"""
+        rng = self.rng
+        f = rng.choice(['fact', 'sum_to', 'down'])
+        if f in self.routines or f in self.macros or f in self.globals:
+            return None
+        p = rng.choice(['n', 'k', 'a'])
+        if p in self.macros or p in self.routines:
+            return None
+        op = rng.choice(['*', '+'])
+        self.routines[f] = ([p], True)
+        self.recursive = getattr(self, 'recursive', set()) | {f}
+        side = rng.choice(['', 'assign %s {%s + 0}\n' % (p, p), 'print %s\n' % p])
+        side_c = {'': [], 'assign': ['(SAssign %s (RExpr (EBin BAdd (EVar %s) (ELit (LInt 0)))))' % (coq_str(p), coq_str(p))],
+                  'print': ['(SPrint (Some (RVar %s)))' % coq_str(p)]}[side.split(' ')[0] if side else '']
+        text = ('define %s with %s begin\n%sif {%s <= 1} begin\nreturn 1\nend\nreturn {%s %s [%s {%s - 1}]}\nend'
+                % (f, p, side, p, p, op, f, p))
+        rec = '(ECall %s [RExpr (EBin BSub (EVar %s) (ELit (LInt 1)))])' % (coq_str(f), coq_str(p))
+        body = side_c + ['(SIf (RExpr (EBin BLe (EVar %s) (ELit (LInt 1)))) (SBlock [SReturn (Some (RLit (LInt 1)))]) None)' % coq_str(p),
+                         '(SReturn (Some (RExpr (EBin %s (EVar %s) %s))))' % (BINOP[op], coq_str(p), rec)]
+        return (text, '(SDefineRoutine %s [%s] (SBlock %s))' % (coq_str(f), coq_str(p), coq_list(body)))
+
     def gen_macro(self):
         rng = self.rng
         m = rng.choice(['m1', 'LIMIT', 'the_light', 'noon', 'k'])
@@ -791,9 +822,10 @@ class Gen:
         for _ in range(size):
             r = rng.random()
             st = None
-            if r < 0.15:
-                st = self.gen_routine()
-            elif r < 0.25:
+            pr = self.opts.get('p_routine', 0.15)
+            if r < pr:
+                st = self.gen_routine() if rng.random() > self.opts.get('p_recursive', 0.0) else self.gen_recursive()
+            elif r < pr + 0.1:
                 st = self.gen_macro()
             if st is None:
                 st = self.gen_stmt(ALL_KINDS)
